@@ -55,3 +55,4 @@ int cmd_trace(int, char**);
 int cmd_json(int, char**);
 int cmd_promela(int, char**);
 int cmd_lua(int, char**);
+int cmd_tables(int, char**);
